@@ -3,6 +3,7 @@ import Driver.ST
 import Driver.C14
 import Driver.C13
 import Driver.C02
+import Driver.PM
 
 def main (args : List String) : IO UInt32 := do
   match args with
@@ -11,4 +12,5 @@ def main (args : List String) : IO UInt32 := do
   | "C14" :: rest => DriverC14.main rest; return 0
   | "C13" :: rest => DriverC13.main rest; return 0
   | "C02" :: rest => DriverC02.main rest; return 0
+  | "PM" :: rest => DriverPM.main rest; return 0
   | _ => IO.eprintln "usage: gvdriver <Cxx> [mode] < history"; return 2
